@@ -344,11 +344,9 @@ func c02Run(c *mc.Ctx) {
 	{
 		type job struct{ l, p int }
 		var jobs []job
-		for p := uint(10); p <= 16; p++ {
-			for _, d := range []int{-1, 0, 1, 2, 3, 5, 7, 8, 9} {
-				for _, pat := range []int{1, 2, 3} {
-					jobs = append(jobs, job{1<<p + d, pat})
-				}
+		for _, l := range gen.SizesAround(10, 16, []int{-1, 0, 1, 2, 3, 5, 7, 8, 9}) {
+			for _, pat := range []int{1, 2, 3} {
+				jobs = append(jobs, job{l, pat})
 			}
 		}
 		c.Par(len(jobs), func(ji int) {
